@@ -113,7 +113,7 @@ def check(run):
                         "server replies (Content-Range, multipart) and the FUSE node layer are not driven here"]
     # ---------------------------------------------------------------- M + generation
     struct_ov = {"MaxEntries": "4", "HKinds": '{"dir", "reg", "chunk", "hardlink"}'} if thorough else None
-    tocs = c04_gen(run, "TocHostileGen", "TocHostile_gen_struct.cfg", None, "VHTOC")
+    tocs = c04_gen(run, "TocHostileGen", "TocHostile_gen_struct.cfg", {"MaxEntries": "2"} if os.environ.get("VERIF_C04_SMALL") else None, "VHTOC")
     if thorough:
         tocs += c04_gen(run, "TocHostileGen", "TocHostile_gen_struct.cfg", struct_ov, "VHTOC")
     tocs += c04_gen(run, "TocHostileGen", "TocHostile_gen_focus.cfg", {"MaxEntries": "1"}, "VHTOC")
@@ -148,14 +148,15 @@ def check(run):
                                       ("memory", "", "./metadata/memory/", OV_STORES),
                                       ("db", "cmd", "./containerd-stargz-grpc/db/", OV_STORES)):
         outs[name] = os.path.join(run.scratch, "out_%s.ndjson" % name)
-        env = {"VERIF_IN": inp, "VERIF_BLOBS": blobs, "VERIF_OUT": outs[name], "VERIF_C04_WORKERS": "12"}
+        env = {"VERIF_IN": inp, "VERIF_BLOBS": blobs, "VERIF_OUT": outs[name], "VERIF_C04_WORKERS": "12",
+               "VERIF_C04_DEADLINE": "20s" if thorough else "12s"}
         if name == "db" and not thorough:
             # the bolt store costs ~10x the others per case: quick tier = all cases of <= 2 entries, every case with a hard link or
-            # a chunk entry ... sampled down to 6000 (seeded), plus all focus and footer cases
+            # a chunk entry ... sampled down to 2500 (seeded), plus all focus and footer cases
             keep = [c for c in cases[:ntoc] if len(c["ents"]) <= 2 or any(e != "valid" for e in [x["dg"] for x in c["ents"]])]
             rest = [c for c in cases[:ntoc] if len(c["ents"]) > 2]
             run.rng.shuffle(rest)
-            ids = {c["id"] for c in keep + rest[:6000]} | {c["id"] for c in cases[ntoc:]}
+            ids = {c["id"] for c in keep + rest[:2500]} | {c["id"] for c in cases[ntoc:]}
             sub = os.path.join(run.scratch, "blobs_db.ndjson")
             with open(sub, "w") as g:
                 for line in open(blobs):
@@ -232,7 +233,8 @@ def check(run):
     for x in r2.lines("VMISS"):
         ln, why = x.split()
         drift.append((fl[int(ln) - 1], why))
-    log("[reference] %d open outcomes of hostile TOCs, %d footer outcomes: %d not allowed by the reference" % (len(tl), len(fl), len(drift)))
+    log("[reference] %d open outcomes of hostile TOCs, %d footer outcomes: %d not allowed by the reference %s" % (
+        len(tl), len(fl), len(drift), dict(collections.Counter((d["drv"], d["ep"], w) for d, w in drift))))
     badkeys = {(recs[ln - 1]["case"], recs[ln - 1]["drv"]) for ln in bad}
     drift = [(d, w) for d, w in drift if (d["case"], d["drv"]) not in badkeys]
     if drift:
